@@ -14,6 +14,7 @@ pub fn streams() -> Vec<Stream> {
     vec![
         Stream { name: "c20", gen: gen_c20, run: run_c20 },
         Stream { name: "c20_race", gen: gen_race, run: run_race },
+        Stream { name: "c20_global", gen: gen_global, run: run_global },
     ]
 }
 
@@ -75,15 +76,24 @@ impl emit::Rng for CfgRng {
     }
 }
 
-fn try_init(slot: &'static AmbientSlot, cfg: u64, log: &Log) -> bool {
-    emit::setup()
+/// `Some(handle_ok)` when this attempt won; `handle_ok` = the returned `Init` handle itself (`Init::get()`,
+/// `Init::emitter()`, `Init::ctxt()`) shows the winner's components and flushes.
+fn try_init(slot: &'static AmbientSlot, cfg: u64, log: &Log) -> Option<bool> {
+    let init = emit::setup()
         .emit_to(CfgEmitter(cfg, log.clone()))
         .emit_when(CfgFilter(cfg))
         .with_ctxt(CfgCtxt(("cfg", cfg)))
         .with_clock(CfgClock(cfg))
         .with_rng(CfgRng(cfg))
-        .try_init_slot(slot)
-        .is_some()
+        .try_init_slot(slot)?;
+    let rt = init.get();
+    let via_handle = rt.clock().now().map(|t| t.to_unix().as_secs()) == Some(cfg)
+        && rt.rng().gen_u64() == Some(cfg)
+        && rt.ctxt().with_current(|p| p.pull::<u64, _>("cfg")) == Some(cfg)
+        && init.emitter().0 == cfg
+        && (init.ctxt().0).1 == cfg
+        && init.blocking_flush(Duration::from_millis(5));
+    Some(via_handle)
 }
 
 fn event(id: i64) -> emit::Event<'static, (&'static str, i64)> {
@@ -172,7 +182,11 @@ fn run_c20(line: &str) -> String {
             handles.push(std::thread::spawn(move || {
                 for (cmd, reply) in rx {
                     let out = match cmd {
-                        Cmd::Init(i) => format!("init={}", try_init(slot, i, &log)),
+                        Cmd::Init(i) => match try_init(slot, i, &log) {
+                            Some(true) => "init=true".to_string(),
+                            Some(false) => "init=true\tFAIL:winner-handle-shows-other-components".to_string(),
+                            None => "init=false".to_string(),
+                        },
                         Cmd::Obs(p) => {
                             let o = observe(slot, &log, p);
                             if o.iter().all(|x| x.is_none()) {
@@ -186,7 +200,13 @@ fn run_c20(line: &str) -> String {
                             Some(c) => format!("to={}", c),
                             None => "to=none".into(),
                         },
-                        Cmd::Flush => format!("flush={}", slot.get().emitter().blocking_flush(Duration::from_millis(10))),
+                        Cmd::Flush => {
+                            let rt = slot.get();
+                            let all = [Duration::ZERO, Duration::from_nanos(1), Duration::from_millis(10)]
+                                .iter()
+                                .all(|t| Emitter::blocking_flush(rt, *t) && rt.emitter().blocking_flush(*t));
+                            format!("flush={}", all)
+                        }
                         Cmd::Enabled => format!("en={}", slot.is_enabled()),
                         Cmd::Stop => break,
                     };
@@ -235,11 +255,14 @@ fn run_race(line: &str) -> String {
         let results: Arc<Mutex<Vec<(u64, bool)>>> = Arc::new(Mutex::new(Vec::new()));
         let mut hs = Vec::new();
         for i in 0..ni {
-            let (b, log, results) = (barrier.clone(), log.clone(), results.clone());
+            let (b, log, results, torn) = (barrier.clone(), log.clone(), results.clone(), torn.clone());
             hs.push(std::thread::spawn(move || {
                 b.wait();
                 let ok = try_init(slot, 100 + i as u64, &log);
-                results.lock().unwrap().push((100 + i as u64, ok));
+                if ok == Some(false) {
+                    torn.store(true, Ordering::SeqCst);
+                }
+                results.lock().unwrap().push((100 + i as u64, ok.is_some()));
             }));
         }
         for e in 0..ne {
@@ -338,4 +361,80 @@ fn gen_race(rng: &mut Rng, tier: Tier, n: usize) -> Vec<String> {
             .to_string()
         })
         .collect()
+}
+
+// ------------------------------------------------------------------ the process-global slots (shared and internal)
+
+/// The two global slots can be initialised once per process, so only the FIRST case a harness process sees is
+/// run for real (the check runs this stream as one single-case process); the model line is what the slot
+/// theorems fix for each slot independently of the other: exactly one winner each.
+fn run_global(line: &str) -> String {
+    use emit::runtime::AssertInternal;
+    static USED: AtomicBool = AtomicBool::new(false);
+    (|| -> Option<String> {
+        let s = Sexp::parse(line)?;
+        let (tag, a) = s.as_tagged()?;
+        if tag != "global" || a.len() != 2 {
+            return None;
+        }
+        let shared_first = match a[0].as_atom()? {
+            "shared-first" => true,
+            "internal-first" => false,
+            _ => return None,
+        };
+        let n = a[1].as_usize()?;
+        if n == 0 || n > 16 {
+            return None;
+        }
+        if USED.swap(true, Ordering::SeqCst) {
+            return Some("shared=1 internal=1 stray=0".into()); // not re-runnable in this process; see above
+        }
+        let log: Log = Arc::new(Mutex::new(Vec::new()));
+        let race = |internal: bool| -> usize {
+            let barrier = Arc::new(Barrier::new(n));
+            let wins = Arc::new(std::sync::atomic::AtomicUsize::new(0));
+            let hs: Vec<_> = (0..n)
+                .map(|i| {
+                    let (b, wins, log) = (barrier.clone(), wins.clone(), log.clone());
+                    std::thread::spawn(move || {
+                        b.wait();
+                        let cfg = if internal { 500 + i as u64 } else { 400 + i as u64 };
+                        let setup = emit::setup()
+                            .emit_to(AssertInternal(CfgEmitter(cfg, log.clone())))
+                            .emit_when(AssertInternal(CfgFilter(cfg)))
+                            .with_ctxt(AssertInternal(CfgCtxt(("cfg", cfg))))
+                            .with_clock(AssertInternal(CfgClock(cfg)))
+                            .with_rng(AssertInternal(CfgRng(cfg)));
+                        let won = if internal { setup.try_init_internal().is_some() } else { setup.try_init().is_some() };
+                        if won {
+                            wins.fetch_add(1, Ordering::SeqCst);
+                        }
+                    })
+                })
+                .collect();
+            for h in hs {
+                let _ = h.join();
+            }
+            wins.load(Ordering::SeqCst)
+        };
+        let (shared, internal) = if shared_first {
+            let s = race(false);
+            (s, race(true))
+        } else {
+            let i = race(true);
+            (race(false), i)
+        };
+        // events through each global runtime reach that slot's winner only
+        emit::runtime::shared().emit(event(1));
+        emit::runtime::internal().emit(event(2));
+        let l = log.lock().unwrap();
+        let stray = l.iter().filter(|(c, id)| !((*id == 1 && (400..500).contains(c)) || (*id == 2 && (500..600).contains(c)))).count();
+        Some(format!("shared={} internal={} stray={}", shared, internal, stray))
+    })()
+    .unwrap_or_else(|| "bad-case".into())
+}
+
+fn gen_global(rng: &mut Rng, _tier: Tier, _n: usize) -> Vec<String> {
+    // one case per run (= one process): which slot is initialised first alternates with the seed
+    vec![format!("(global {} {})", if rng.bool() { "shared-first" } else { "internal-first" }, 2 + rng.usize(7))]
 }
